@@ -139,7 +139,13 @@ func c15op(r *rand.Rand, actor int, local bool) core.Op {
 	}
 	switch k := r.IntN(12); {
 	case k < 3:
-		return core.Op{Kind: "register", Actor: actor, S: c15names[r.IntN(len(c15names))]}
+		op := core.Op{Kind: "register", Actor: actor, S: c15names[r.IntN(len(c15names))]}
+		if r.IntN(3) == 0 {
+			// the request carries an identifier of its own (a record kept
+			// from an earlier registration and sent again): Y-1 chooses it
+			op.Y = int64(1 + r.IntN(8))
+		}
+		return op
 	case k < 4:
 		return core.Op{Kind: "register-invalid", Actor: actor, S: c15names[r.IntN(len(c15names))], X: int64(r.IntN(3))}
 	case k < 6:
@@ -353,6 +359,13 @@ func (c15) Run(c *core.Case, env *core.Env) {
 						default:
 							info.ProcessId = 0
 						}
+					}
+					if op.Kind == "register" && op.Y > 0 {
+						// the identifier field of a request is the directory's to
+						// fill in: whatever the client left there (an identifier
+						// it was given before, one of somebody else) is ignored
+						info.ServiceId = pickID(op.Y - 1)
+						env.Probe("registrations-carrying-an-identifier")
 					}
 					h := env.Invoke(a, op.Kind, op.S)
 					id, err := p.RegisterService(info)
